@@ -87,6 +87,21 @@ func VH_C08_supervise() {
 	g1 := w.spawn(c1, "g1", g1a)
 	other := w.spawn(w.root, "other", vhLogged("other"))
 
+	// optionally the failing child has stashed a message before it fails: the
+	// stash belongs to the actor (its context), whatever happens to the incarnation
+	stashed := vrtChoose(2) == 1
+	if stashed {
+		inner0 := a0.onMsg
+		a0.onMsg = func(ctx vivid.ActorContext, m vivid.Message) {
+			if u, ok := m.(*vhUserMsg); ok && u.N == 7 {
+				ctx.Stash()
+				return
+			}
+			inner0(ctx, m)
+		}
+		c0.TellSelf(&vhUserMsg{N: 7})
+		vrtReach("stash-before-failure")
+	}
 	// a burst: one message before the failing one, two behind it
 	c0.TellSelf(&vhUserMsg{N: 1})
 	c0.TellSelf(&vhBoom{})
@@ -102,6 +117,22 @@ func VH_C08_supervise() {
 	}
 	w.run(600, "supervision-terminates")
 
+	if stashed {
+		// C03: the stashed message is still in the stash, or was dead-lettered, exactly once
+		dead7 := 0
+		for _, dl := range vhDeathLetters(w) {
+			if u, ok := dl.Envelope.Message().(*vhUserMsg); ok && u.N == 7 {
+				dead7++
+			}
+		}
+		in7 := 0
+		for _, e := range c0.stash {
+			if u, ok := e.Message().(*vhUserMsg); ok && u.N == 7 {
+				in7++
+			}
+		}
+		vrtAssert(in7+dead7 == 1, "stashed-mail-keeps-exactly-one-fate-across-the-directive")
+	}
 	dec := d.decision
 	vrtAssert(d.calls == 1 || dec.IsEscalate(), "strategy-consulted-exactly-once")
 	if dec.IsEscalate() {
